@@ -736,9 +736,41 @@ pub fn finalize_with_monitors(w: &mut World, actor: &str, psbt: &mut Psbt, v: u6
     // present, honest messages.
     if w.mon.on("C02") && !w.mon.corruption && matches!(v % 6, 1 | 4) && !w.coord.crash_requested {
         for i in 0..n {
-            // (the finalizer re-reads the script from its bytes under the context's rules: only
-            // descriptors that pass them are covered)
-            if !w.env.inputs[i].sane || w.env.inputs[i].foreign || was_final[i] || is_final(&psbt.inputs[i]) || !failed.contains(&i) {
+            if w.env.inputs[i].foreign || was_final[i] || is_final(&psbt.inputs[i]) || !failed.contains(&i) {
+                continue;
+            }
+            // descriptors outside the sanity rules: the reference is the library's own malleable
+            // satisfier over the same PSBT input (what the finalizer is documented to run)
+            if !w.env.inputs[i].sane {
+                // (only where the sanity verdict comes from the IF-related legacy switches: other
+                // insane scripts - resource limits, signature-less paths - the finalizer refuses by
+                // design)
+                if !crate::wallet::legacy_sane_but_for_if(&w.env.inputs[i].desc) {
+                    continue;
+                }
+                let complete = before.inputs.iter().all(|inp| inp.witness_utxo.is_some() || inp.non_witness_utxo.is_some());
+                let text = w.env.inputs[i].spec.text.clone();
+                let recorded = before.inputs[i].bip32_derivation.len().max(before.inputs[i].tap_key_origins.len());
+                if !complete || ((text.contains("pkh(") || text.contains("pk_h(")) && recorded < w.env.inputs[i].key_ids.len()) {
+                    continue;
+                }
+                let desc = w.env.inputs[i].desc.clone();
+                let r = guard(w, "psbt-satisfier get_satisfaction_mall", actor, |_| desc.get_satisfaction_mall(miniscript::psbt::PsbtInputSatisfier::new(&before, i)));
+                if let Some(Ok((wit, ss))) = r {
+                    w.stats.probe("l2_finalize_insane_checked");
+                    if exec_spend(w, &before.unsigned_tx, i, &wit, &ss, Flags::STANDARD).is_ok() {
+                        let cls = format!("L2-finalize:{:?}:satisfier-succeeds:{}", w.env.inputs[i].kind, how.trim_end_matches('*'));
+                        raise_class(
+                            w,
+                            "C02",
+                            "L2-finalize",
+                            cls,
+                            format!("{} reports input {} as not finalisable although get_satisfaction_mall over the same PSBT input returns a standard spend: {}", how, i, text),
+                            actor,
+                        );
+                        return false;
+                    }
+                }
                 continue;
             }
             let complete = before.inputs.iter().all(|inp| inp.witness_utxo.is_some() || inp.non_witness_utxo.is_some());
